@@ -11,7 +11,7 @@ from engine.par import pmap
 
 
 SPEC_NAMES = ('cnt1', 'pos1', 'neg1', 'sum1', 'sumF1', 'sumFp1', 'sumFn1', 'dot1', 'ccnt', 'cpos', 'cneg', 'csum', 'totF', 'totFp', 'totFn', 'dot2',
-              'isperm', 'ixperm', 'F', 'modsum', 'modsumT', 'degsum', 'degsumT', 'Qmod', 'QrawB', 'agg', 'umul', 'udiv', 'dset', 'rset', 'wset', 'cntb', 'tsum', 'trace1', 'sumdot')
+              'isperm', 'ixperm', 'F', 'modsum', 'modsumT', 'degsum', 'degsumT', 'Qmod', 'Qrawg', 'QrawB', 'agg', 'umul', 'udiv', 'dset', 'rset', 'wset', 'cntb', 'tsum', 'trace1', 'sumdot')
 
 
 def to_smt2(premises, goal, axioms):
@@ -87,7 +87,8 @@ def discharge(obls, timeout_s=30, axioms=None, use_cvc5=False, escalate=True, no
         if o.kind == 'frame' or z3.is_true(g) or z3.is_false(g):
             trivial[o.name] = ('discharged' if z3.is_true(g) else 'open', 'syntactic', 0.0, '' if z3.is_true(g) else 'goal is literally false', o.kind)
             continue
-        tasks.append((o.name, to_smt2(o.premises, o.goal, axioms), int(timeout_s * 1000), 0))
+        short = bool(no_escalate and no_escalate(o.name))      # expected-open (known finding): small budget, no escalation
+        tasks.append((o.name, to_smt2(o.premises, o.goal, axioms), int((min(timeout_s, 5) if short else timeout_s) * 1000), 0))
     res = {}
     for name, r, secs, reason, model in pmap(_solve, tasks):
         res[name] = (r, secs, reason, model)
@@ -116,11 +117,15 @@ def vacuity(eng, axioms=None, timeout_s=5):
     not."""
     axioms = core.spec_axioms() if axioms is None else axioms
     bad = []
-    tasks = [('requires-satisfiable', to_smt2(eng.entry_premises, z3.BoolVal(False), axioms), int(timeout_s * 1000), 0)]
-    tasks += [(nm, to_smt2(pc, z3.BoolVal(False), axioms), int(timeout_s * 1000), 0) for nm, pc in eng.canaries[:8]]
-    res = pmap(_solve, tasks)
+    res = pmap(_solve, [('requires-satisfiable', to_smt2(eng.entry_premises, z3.BoolVal(False), axioms), int(timeout_s * 1000), 0)])
     if res[0][1] == 'unsat':
         bad.append('requires clauses are contradictory')
-    if len(res) > 1 and all(r[1] == 'unsat' for r in res[1:]):
+    feasible = not eng.canaries
+    for i in range(0, len(eng.canaries), 16):
+        chunk = [(nm, to_smt2(pc, z3.BoolVal(False), axioms), int(timeout_s * 1000), 0) for nm, pc in eng.canaries[i:i + 16]]
+        if any(r[1] != 'unsat' for r in pmap(_solve, chunk)):
+            feasible = True
+            break
+    if not feasible:
         bad.append('no return path is feasible')
     return bad
